@@ -2,6 +2,7 @@ package main
 
 import (
 	"fmt"
+	"log/slog"
 	"math"
 	"net/url"
 	"reflect"
@@ -40,6 +41,7 @@ const (
 	tyArr2     = 106
 	tyMyF64    = 107
 	tyR        = 108
+	tyLogLevel = 130
 )
 
 type (
@@ -126,6 +128,7 @@ func valuePool() []gval {
 		rComp(tyMapSI, false, map[string]int{"a": 1}), rComp(tyMapSI, false, map[string]int{"a": 2}),
 		rComp(tyArr2, true, [2]int{1, 2}), rComp(tyArr2, true, [2]int{2, 1}),
 		rComp(tyR, true, R{"a", 1}), rComp(tyR, false, R{"a", []int{1}}), rComp(tyR, false, R{"a", []int{2}}),
+		rInt(tyLogLevel, 4, slog.LevelWarn), rInt(tyLogLevel, 8, slog.LevelError),
 	}
 }
 
@@ -175,6 +178,28 @@ func mkKey[T any](name string, ty int) keyEntry {
 	}
 }
 
+// builtinKey wraps one of errdef's exported field constructor/extractor pairs.
+func builtinKey[T any](name string, ty int, ctor errdef.FieldConstructor[T], ext errdef.FieldExtractor[T]) keyEntry {
+	conv := func(v any) T {
+		var t T
+		if v != nil {
+			t = v.(T)
+		}
+		return t
+	}
+	var zero T
+	return keyEntry{Name: name, Ty: ty, Key: ctor.Key(), Zero: zero, StaticType: reflect.TypeOf((*T)(nil)).Elem(),
+		Opt:        func(v any) errdef.Option { return ctor(conv(v)) },
+		Ext:        func(err error) (any, bool) { v, ok := ext(err); return v, ok },
+		OrZero:     func(err error) any { return ext.OrZero(err) },
+		OrDefault:  func(err error, d any) any { return ext.OrDefault(err, conv(d)) },
+		OrFallback: func(err error, d any) any { return ext.OrFallback(err, func(error) T { return conv(d) }) },
+		WithForms: func(err error, d any) [3]any {
+			return [3]any{ext.WithZero()(err), ext.WithDefault(conv(d))(err), ext.WithFallback(func(error) T { return conv(d) })(err)}
+		},
+	}
+}
+
 var keyPool = func() []keyEntry {
 	ks := []keyEntry{
 		mkKey[string]("s", tyString), mkKey[string]("s", tyString), mkKey[int]("n", tyInt), mkKey[int]("m", tyInt),
@@ -189,6 +214,8 @@ var keyPool = func() []keyEntry {
 		mkKey[int]("s", tyInt), mkKey[string]("n", tyString), mkKey[R]("r", tyR),
 		mkKey[*int]("pn", 120), mkKey[*string]("ps", 121), mkKey[*P]("pp", 122), mkKey[[3]int]("arr3", 123), mkKey[*MyInt]("pmi", 124),
 		mkKey[uint64]("u64b", tyUint64), mkKey[int64]("i64b", tyInt64), mkKey[float64]("n", tyFloat64),
+		builtinKey[slog.Level]("log_level", tyLogLevel, errdef.LogLevel, errdef.LogLevelFrom),
+		builtinKey[int]("http_status", tyInt, errdef.HTTPStatus, errdef.HTTPStatusFrom),
 	}
 	for i := range ks {
 		ks[i].ID = i
